@@ -272,7 +272,13 @@ def run(facts, rep, ctx):
                 r_ = _c05.ty_range(st_["rv"]["ty"])
                 n_casts += 1
                 if "input" in tags_ and hi_ > r_[1] and any(x[0] == "bin" and x[1].startswith("Add") for x in walk(t_)):
-                    trunc = (fmt(t_)[:70], st_["rv"]["ty"], hi_, st_.get("line"))
+                    # ... unless a dominating comparison already bounds the value by the target type's maximum
+                    from flow import control_deps as _cdeps
+                    cd_ = _cdeps(b)
+                    f_ = _c05.lin(b, t_, P_, bi_, cd_, 0, st_["rv"].get("from"))
+                    goal_ = _c05._lin_add(({}, r_[1]), f_, -1)
+                    if not _c05.entails(b, bi_, cd_, P_, goal_):
+                        trunc = (fmt(t_)[:70], st_["rv"]["ty"], hi_, st_.get("line"))
         if trunc:
             rep.violation(R1, b.name, "address-truncated", "the sum %s (up to %#x) is cast to %s: a record offset near the integer limit wraps to a small address inside the data region instead of being reported as out of range" % (trunc[0], trunc[2], trunc[1]), "%s:%s" % (b.file, trunc[3]))
     except Exception:
